@@ -36,6 +36,12 @@ class Ledger(object):
         if uid in self.seen:
             return                      # double grants are C04's business
         self.seen.add(uid)
+        if sim.tasks[uid].get('_bad_app_slots'):
+            res.count('invalid_app_slots_granted')
+            self._viol(sim, 'invalid-app-slots-granted', '%s names a node or '
+                       'core the pilot does not have and was placed: %s'
+                       % (uid, view))
+            return
         app   = bool(sim.tasks[uid].get('_app_slots_found'))
         nodes = {n['index']: n for n in sim.rm_info.node_list}
         other = {n['index'] for n in (sim.rm_info.agent_node_list or []) +
